@@ -1,8 +1,8 @@
 (* C03, client half, update messages WITH pre-spawn mappings: the history argument of
    Repl/ClientHist_proofs.v (an old mutate message cannot change the structure) and the client frame
-   theorem, for update messages whose mappings are harmless when they are applied ([maps_ok],
-   Repl/ClientStructSpec.v: the server entity is unknown to the client, the pre-spawned entity is
-   neither marked nor mapped) and concern entities sent in the changes array of the same message
+   theorem, for update messages whose mappings are harmless when they are applied ([maps_ok] at
+   [maps_pre], Repl/ClientStructSpec.v: after the despawn records of the message the server entity is
+   unknown to the client, the pre-spawned entity is neither marked nor mapped) and concern entities sent in the changes array of the same message
    ([maps_in_changes]: the way the server uses `ClientEntityMap`, C16).  The invariant "pre-spawned
    entities are never mapped" (`pu`) of the versions without mappings is gone; that the client
    operations of a frame are harmless ([cops_safe]) becomes a hypothesis.
@@ -24,11 +24,12 @@ Arguments N.modulo : simpl never. Arguments N.sub : simpl never. Arguments N.eqb
 Definition maps_in_changes (u : update_msg) : Prop :=
   forall e, In e (map fst (u_maps u)) -> In e (map fst (u_changes u)).
 
-(* the mappings of the messages of an inbox are harmless when they are applied, in order *)
+(* the mappings of the messages of an inbox are harmless when they are applied (after the despawn records of their
+   message: [maps_pre]), in order *)
 Fixpoint inbox_maps_ok (c : client) (us : list update_msg) : Prop :=
   match us with
   | [] => True
-  | u :: t => maps_ok (set_upd_tick c (u_tick u)) (u_maps u) /\
+  | u :: t => maps_ok (maps_pre c u) (u_maps u) /\
               forall c', apply_update_message c u = Ok c' -> inbox_maps_ok c' t
   end.
 
@@ -90,7 +91,7 @@ Qed.
 Theorem update_message_maps_props c S u c' applied :
   cs_inv c -> srel c S -> hist_small c -> ent_hist_ok applied c ->
   (forall u0, In u0 applied -> u_tick u0 <= u_tick u) -> small_tick (u_tick u) ->
-  maps_ok (set_upd_tick c (u_tick u)) (u_maps u) -> maps_in_changes u ->
+  maps_ok (maps_pre c u) (u_maps u) -> maps_in_changes u ->
   apply_update_message c u = Ok c' ->
   cs_inv c' /\ srel c' (abs_apply S u) /\ hist_small c' /\ ent_hist_ok (applied ++ [u]) c'.
 Proof.
@@ -99,18 +100,19 @@ Proof.
   assert (Hrel' : srel c' (abs_apply S u)).
   { apply srel_struct_equiv; [exact (cs_inv_nodup c' Hinv')|]. eapply struct_equiv_trans; [exact Hst|].
     apply abs_apply_equiv. apply srel_struct_equiv; [exact (cs_inv_nodup c Hinv)|exact Hrel]. }
-  unfold apply_update_message in H. cbv zeta in H.
+  unfold apply_update_message in H. cbv zeta in H. unfold maps_pre in Hmok.
   set (c0 := set_upd_tick c (u_tick u)) in *.
   assert (Hinv0 : cs_inv c0) by (revert Hinv; apply cs_inv_ext; reflexivity).
   assert (Hsm0 : hist_small c0) by (revert Hsm; apply hist_small_ext; reflexivity).
-  destruct (mappings_props (u_maps u) c0 Hinv0 Hmok Hsm0) as (Hinv1 & Hsm1 & O0). cbv zeta in Hinv1, Hsm1, O0.
-  set (c1 := fold_left (fun c m => apply_entity_mapping c (fst m) (snd m)) (u_maps u) c0) in *.
-  assert (Epre : update_pre c u = fold_left apply_despawn (u_despawns u) c1) by reflexivity.
-  destruct (despawns_struct (u_despawns u) c1 (client_struct c1) Hinv1 (srel_self c1 (cs_inv_nodup c1 Hinv1))) as [Hinv2 Hrel2].
-  rewrite <- Epre in Hinv2, Hrel2, H.
-  assert (Hsm2 : hist_small (update_pre c u)).
-  { rewrite Epre. apply Client_proofs.fold_left_inv; [intros; apply hs_despawn; assumption|exact Hsm1]. }
-  pose proof (others_same_despawns (u_despawns u) c1 Hinv1) as O1. rewrite <- Epre in O1.
+  destruct (despawns_struct (u_despawns u) c0 (client_struct c0) Hinv0 (srel_self c0 (cs_inv_nodup c0 Hinv0))) as [Hinv1 _].
+  assert (Hsm1 : hist_small (fold_left apply_despawn (u_despawns u) c0)).
+  { apply Client_proofs.fold_left_inv; [intros; apply hs_despawn; assumption|exact Hsm0]. }
+  pose proof (others_same_despawns (u_despawns u) c0 Hinv0) as O1.
+  set (c1 := fold_left apply_despawn (u_despawns u) c0) in *.
+  destruct (mappings_props (u_maps u) c1 Hinv1 Hmok Hsm1) as (Hinv2 & Hsm2 & O0). cbv zeta in Hinv2, Hsm2, O0.
+  assert (Epre : update_pre c u = fold_left (fun c m => apply_entity_mapping c (fst m) (snd m)) (u_maps u) c1) by reflexivity.
+  rewrite <- Epre in Hinv2, Hsm2, O0, H.
+  pose proof (srel_self _ (cs_inv_nodup _ Hinv2)) as Hrel2.
   apply bind_ok in H. destruct H as [r3 [E3 H]].
   destruct (removals_struct _ _ _ _ _ Hinv2 Hrel2 E3) as (c3 & -> & Hinv3 & Hrel3).
   pose proof (run_array_inv hist_small _ _ (fun c0 a r P E => hs_removals c0 _ _ _ r HT P E) _ _ Hsm2 E3) as Hsm3. cbn [sr_client] in Hsm3.
@@ -137,11 +139,11 @@ Proof.
   destruct (in_dec N.eq_dec e (map fst (u_changes u))) as [Hc|Hnc].
   { apply Htouched. right. apply in_map_iff in Hc. destruct Hc as [[e' cs] [Ee Hin]]. cbn in Ee. subst e'. exists cs. exact Hin. }
   destruct (O3 e cid x' Hnc Hs Hx Hmk) as [S3 X3]. destruct (O2 e cid x' Hnr S3 X3 Hmk) as [S2 X2].
-  destruct (in_dec N.eq_dec e (u_despawns u)) as [Hd|Hnd].
-  { exfalso. rewrite Epre in S2. rewrite (proj1 (despawns_unmapped_dead (u_despawns u) _ e Hd)) in S2. discriminate. }
-  destruct (O1 e cid x' Hnd S2 X2 Hmk) as [S1 X1].
   assert (Hnm : ~ In e (map fst (u_maps u))) by (intros Hin; exact (Hnc (Hch e Hin))).
-  destruct (O0 e cid x' Hnm S1 X1 Hmk) as [S0 X0]. change (al_get e (cl_s2c c) = Some cid) in S0.
+  destruct (O0 e cid x' Hnm S2 X2 Hmk) as [S1 X1].
+  destruct (in_dec N.eq_dec e (u_despawns u)) as [Hd|Hnd].
+  { exfalso. unfold c1 in S1. rewrite (proj1 (despawns_unmapped_dead (u_despawns u) _ e Hd)) in S1. discriminate. }
+  destruct (O1 e cid x' Hnd S1 X1 Hmk) as [S0 X0]. change (al_get e (cl_s2c c) = Some cid) in S0.
   change (get_cent c cid = Some x') in X0.
   destruct (Hok e cid x' S0 X0 Hmk) as (h & a1 & a2 & Hh & Ea & Ha1 & Ha2).
   exists h, a1, (a2 ++ [u]). split; [exact Hh|]. split; [rewrite Ea, app_assoc; reflexivity|]. split; [exact Ha1|].
@@ -257,19 +259,20 @@ Qed.
 
 Lemma update_message_weak_maps c u c' :
   cs_inv c -> hist_small c -> small_tick (u_tick u) ->
-  maps_ok (set_upd_tick c (u_tick u)) (u_maps u) -> maps_in_changes u ->
+  maps_ok (maps_pre c u) (u_maps u) -> maps_in_changes u ->
   apply_update_message c u = Ok c' -> cs_inv c' /\ hist_small c'.
 Proof.
   intros Hinv Hsm HT Hmok Hch H.
   destruct (update_message_struct_maps c u c' Hinv Hmok Hch H) as (_ & Hinv' & _). split; [exact Hinv'|].
-  unfold apply_update_message in H. cbv zeta in H.
+  unfold apply_update_message in H. cbv zeta in H. unfold maps_pre in Hmok.
   set (c0 := set_upd_tick c (u_tick u)) in *.
   assert (Hinv0 : cs_inv c0) by (revert Hinv; apply cs_inv_ext; reflexivity).
   assert (Hsm0 : hist_small c0) by (revert Hsm; apply hist_small_ext; reflexivity).
-  destruct (mappings_props (u_maps u) c0 Hinv0 Hmok Hsm0) as (Hinv1 & Hsm1 & _). cbv zeta in Hinv1, Hsm1.
-  set (c1 := fold_left (fun c m => apply_entity_mapping c (fst m) (snd m)) (u_maps u) c0) in *.
-  assert (Hsm2 : hist_small (fold_left apply_despawn (u_despawns u) c1)).
-  { apply Client_proofs.fold_left_inv; [intros; apply hs_despawn; assumption|exact Hsm1]. }
+  destruct (despawns_struct (u_despawns u) c0 (client_struct c0) Hinv0 (srel_self c0 (cs_inv_nodup c0 Hinv0))) as [Hinv1 _].
+  assert (Hsm1 : hist_small (fold_left apply_despawn (u_despawns u) c0)).
+  { apply Client_proofs.fold_left_inv; [intros; apply hs_despawn; assumption|exact Hsm0]. }
+  set (c1 := fold_left apply_despawn (u_despawns u) c0) in *.
+  destruct (mappings_props (u_maps u) c1 Hinv1 Hmok Hsm1) as (_ & Hsm2 & _). cbv zeta in Hsm2.
   apply bind_ok in H. destruct H as [r3 [E3 H]].
   pose proof (run_array_inv hist_small _ _ (fun c0 a r P E => hs_removals c0 _ _ _ r HT P E) _ _ Hsm2 E3) as Hsm3.
   destruct r3 as [c3|c3]; cbn [sr_client] in Hsm3; [|inversion H; subst; exact Hsm3].
